@@ -477,3 +477,24 @@ func (f *BadS5fan) BindRTCPReader(rd interceptor.RTCPReader) interceptor.RTCPRea
 		return n, attr, nil
 	})
 }
+
+// ---- P3 -----------------------------------------------------------------------------------------------------------------
+
+type p3Mark struct {
+	started  bool
+	GoodP3hi uint16
+	BadP3hi  uint16
+}
+
+func (m *p3Mark) observe(seq uint16) {
+	if !m.started {
+		m.started = true
+		m.GoodP3hi = seq
+		m.BadP3hi = seq
+		return
+	}
+	if d := seq - m.GoodP3hi; d > 0 && d < 1<<15 {
+		m.GoodP3hi = seq
+	}
+	m.BadP3hi = seq // every packet, in order or not
+}
